@@ -356,11 +356,14 @@ func (w *World) doStart(t *Task) {
 		w.rec.take()
 	}
 
-	call.pre = &preCall{snap: w.Seams.Snapshot(), transient: w.Store.TransientErr, exec: func(eng flows.Engine) error {
+	transientAtCall := w.Store.TransientErr
+	call.pre = &preCall{snap: w.Seams.Snapshot(), transient: transientAtCall, exec: func(eng flows.Engine) error {
+		w.Store.TransientErr = 0
 		sa2, err := w.freshSA(sa)
 		if err != nil {
 			return err
 		}
+		w.Store.TransientErr = transientAtCall // the same pending store errors as the original call met
 		t2, err := triggers.ReadTrigger(sa2, tj, assets.IgnoreMissing)
 		if err != nil {
 			return err
@@ -554,11 +557,14 @@ func (w *World) doResume(c *ContactState, rec *SessionRec, spec *ResumeSpec) {
 
 // resumePre captures what is needed to re-execute a resume from the same pre-state.
 func (w *World) resumePre(sa *SA, before, rj []byte) *preCall {
-	return &preCall{snap: w.Seams.Snapshot(), transient: w.Store.TransientErr, exec: func(eng flows.Engine) error {
+	transientAtCall := w.Store.TransientErr
+	return &preCall{snap: w.Seams.Snapshot(), transient: transientAtCall, exec: func(eng flows.Engine) error {
+		w.Store.TransientErr = 0
 		sa2, err := w.freshSA(sa)
 		if err != nil {
 			return err
 		}
+		w.Store.TransientErr = transientAtCall // the same pending store errors as the original call met
 		s2, err := eng.ReadSession(sa2, before, assets.IgnoreMissing)
 		if err != nil {
 			return err
@@ -672,7 +678,9 @@ func (w *World) commit(c *ContactState, rec *SessionRec, call *Call, o *Outcome)
 	if !ok {
 		if call.Kind == "resume" {
 			if _, isEngErr := call.Err.(*engine.Error); !isEngErr {
-				// a failed resume loses the session (the host cannot continue it)
+				// a failed resume loses the session (the host cannot continue it); the object the call
+				// was made on is in an undefined state and is dropped - only the durable JSON remains
+				rec.Live, rec.LiveSA = nil, nil
 				if c.Session == rec {
 					c.Ended, c.Session = rec, nil
 				}
